@@ -124,6 +124,7 @@ def c04(D, h):
     for sp, genes in D.species:
         for g, _ in genes:
             decl[sp].append(g)
+    referenced = set(refs_of(D.groups))
     per_tax = collections.defaultdict(list)
     for top in h.get_list_top_level_hogs():
         for n in all_nodes(top):
@@ -144,6 +145,10 @@ def c04(D, h):
                 bad.append('extant genome %s lists %s, declared %s' % (t.name, sorted(x.unique_id for x in g.genes), sorted(decl.get(t.name, []))))
             if g.name != t.name:
                 bad.append('extant genome name %s != leaf %s' % (g.name, t.name))
+            nref = sum(1 for x in decl.get(t.name, []) if x in referenced)
+            if g.get_number_genes() != len(decl.get(t.name, [])) or g.get_number_genes(singleton=False) != nref:
+                bad.append('gene counts of extant genome %s: %s with / %s without singletons, declared %d / referenced %d' % (
+                    t.name, g.get_number_genes(), g.get_number_genes(singleton=False), len(decl.get(t.name, [])), nref))
         else:
             want = per_tax.get(id(g), [])
             if collections.Counter(map(id, g.genes)) != collections.Counter(map(id, want)):
@@ -343,8 +348,12 @@ def c09(D, h, tmpdir):
                 bad.append('profile at %s differs from the vertical comparison with its parent' % taxS(p))
     out = tmpdir + '/tp.html'
     try:
-        tp.export_as_html(out)
+        # through the public entry point (create_tree_profile(outfile=..., as_html=True)), then once more directly
+        h.create_tree_profile(outfile=out, as_html=True)
         data = html_tree_data(out)
+        tp.export_as_html(out + '.2')
+        if html_tree_data(out + '.2') != data:
+            bad.append('create_tree_profile(outfile, as_html=True) and export_as_html write different trees')
         def walk(j, nd):
             if j['numberGenes'] != nd.nbr_genes:
                 bad.append('HTML numberGenes differs at %s' % nd.name)
